@@ -6,6 +6,7 @@ import (
 	"os"
 	"sort"
 	"strconv"
+	"strings"
 	"sync"
 
 	"github.com/theQRL/go-qrllib/dilithium"
@@ -74,6 +75,11 @@ func kindsOf(tr []dilithium.VerifAttempt) []string {
 	if len(tr) >= 15 {
 		ks = append(ks, "many-attempts")
 	}
+	for _, th := range []int{30, 40, 45, 50, 55, 60, 70} {
+		if len(tr) >= th {
+			ks = append(ks, fmt.Sprintf("attempts-ge-%d", th))
+		}
+	}
 	return ks
 }
 
@@ -81,6 +87,10 @@ func kindsOf(tr []dilithium.VerifAttempt) []string {
 func scanMain(args []string) {
 	n, _ := strconv.Atoi(args[0])
 	per, _ := strconv.Atoi(args[1])
+	only := ""
+	if len(args) > 2 {
+		only = args[2] // keep only kinds with this prefix (long scans)
+	}
 	var seed [48]byte
 	d, _ := dilithium.NewDilithiumFromSeed(seed)
 	sk := d.GetSK()
@@ -91,6 +101,15 @@ func scanMain(args []string) {
 		binary.LittleEndian.PutUint64(m[:], uint64(i))
 		tr := dilithium.VerifSignTrace(m[:], &sk)
 		ks := kindsOf(tr)
+		if only != "" {
+			var f []string
+			for _, k := range ks {
+				if strings.HasPrefix(k, only) {
+					f = append(f, k)
+				}
+			}
+			ks = f
+		}
 		if len(ks) == 0 {
 			return
 		}
